@@ -51,7 +51,9 @@ CLAIMED["C05"] = dict(
     text="Programs run under forced collection schedules (collect at every k-th allocation check, host collections between "
          "evaluations); outcome must not depend on the schedule, a structural heap oracle (reachable ⊆ live over all heaps "
          "from all roots) runs after every evaluation and collection, reclamation is compared with a same-VM baseline, and "
-         "the allocation-heavy family is repeated under AddressSanitizer.",
+         "the allocation-heavy family is repeated under AddressSanitizer. Host-handle histories (the host evaluates programs "
+         "whose results are built at run time, keeps the handles, drops some, collects, allocates) require every handle "
+         "still held to read what it read when it was created, also under AddressSanitizer.",
     design_ref="DESIGN.md §4 C05",
     note="Quiescent-point oracle; roots missing only inside Rust frames are visible through outcomes/ASan only. Known "
          "findings F5 (module-level lazy) and F24 (spawned threads never reclaimed) keyed by workload family.",
@@ -123,7 +125,8 @@ CLAIMED["C07"] = dict(
     text="Hook counters observe allocated_memory against memory_limit after every limit-checked allocation and the value "
          "stack against the configured limit and the static per-function bound at every instruction, over sweeps of "
          "limits and program families; tail-recursive families must show identical peak stack at n = 10, 10^3, 10^5; deep "
-         "recursion / deep data run on an ordinary 8 MiB thread in a child process; interrupts are judged in call steps.",
+         "recursion / deep data run on an ordinary 8 MiB thread in a child process; interrupts are judged in call steps, a "
+         "third of them arriving while the program runs inside io.catch with a handler that would return or keep running.",
     design_ref="DESIGN.md §4 C07",
     note="'Promptly' = at most 100 VM call steps after interrupt() returned. F4 (GC marking recursion exhausts the "
          "native stack on deep data) listed; F3 fixed.",
